@@ -375,7 +375,7 @@ Qed.
 
 (** "::t": the two empty fragments of a leading compression. *)
 Lemma run_left_start (t : list bytes) :
-  t <> [] -> (length t <= 6)%nat ->
+  t <> [] -> (length t <= 7)%nat ->
   run (([] : bytes) :: [] :: t) =
   ipv6_loop (([] : bytes) :: [] :: t) (len (([] : bytes) :: [] :: t)) t (0 + 1 + 1) true
     (zeros (8 - length t) ++ zeros (length t)).
@@ -390,19 +390,19 @@ Proof.
   change (set_num (zeros 8) 0 0) with (Halt (zeros 8)). cbn [obind].
   rewrite loop_cons. change (len [] =? 0) with true. cbv iota.
   change (0 + 1 =? 0) with false. replace (0 + 1 =? l - 1) with false by lia. cbv iota zeta.
-  set (k := (6 - length t)%nat). set (m := (8 - length t)%nat).
-  replace 8%nat with (1 + (S k + length t))%nat by (subst k; lia).
+  set (k := (7 - length t)%nat). set (m := (8 - length t)%nat).
+  replace 8%nat with (1 + (k + length t))%nat by (subst k; lia).
   rewrite !zeros_split.
-  replace (Z.to_nat (9 - l + (0 + 1) - (0 + 1))) with (length (zeros (S k)))
+  replace (Z.to_nat (9 - l + (0 + 1) - (0 + 1))) with (length (zeros (k)))
     by (rewrite repeat_length; subst k; unfold len in *; lia).
-  rewrite (zero_fill_mid (zeros (S k)) (zeros 1) (zeros (length t))) by reflexivity.
+  rewrite (zero_fill_mid (zeros (k)) (zeros 1) (zeros (length t))) by reflexivity.
   cbn [obind]. rewrite repeat_length.
   rewrite (app_assoc (zeros 1)), <- zeros_split. do 3 f_equal. subst k m. lia.
 Qed.
 
 (** "::R": the compression at the left end. *)
 Lemma run_left (R : list bytes) :
-  R <> [] -> Forall hexgroup R -> (length R <= 6)%nat ->
+  R <> [] -> Forall hexgroup R -> (length R <= 7)%nat ->
   run (([] : bytes) :: [] :: R) = Halt (Some (true, zeros (8 - length R) ++ vals R)).
 Proof.
   intros HR GR Hlen. rewrite run_left_start by assumption.
@@ -417,25 +417,25 @@ Qed.
 
 (** "L::": the compression at the right end. *)
 Lemma run_right (L : list bytes) :
-  L <> [] -> Forall hexgroup L -> (length L <= 6)%nat ->
+  L <> [] -> Forall hexgroup L -> (length L <= 7)%nat ->
   run (L ++ [[]; []]) = Halt (Some (true, vals L ++ zeros (8 - length L))).
 Proof.
   intros HL GL Hlen. unfold run.
   set (F := L ++ [[]; []]). set (l := len F).
   assert (Hl : l = len L + 2) by (subst l F; rewrite len_app; reflexivity).
   assert (HL1 : 1 <= len L) by (destruct L; [congruence|rewrite len_cons; pose proof (len_nonneg L); lia]).
-  set (k := (6 - length L)%nat).
-  replace 8%nat with (length L + (S k + 1))%nat at 1 by (subst k; lia).
+  set (k := (7 - length L)%nat).
+  replace 8%nat with (length L + (k + 1))%nat at 1 by (subst k; lia).
   rewrite !zeros_split.
   unfold F at 2.
-  pose proof (loop_groups F l L [[]; []] 0 false [] (zeros (length L)) (zeros (S k) ++ zeros 1) GL) as H1.
+  pose proof (loop_groups F l L [[]; []] 0 false [] (zeros (length L)) (zeros (k) ++ zeros 1) GL) as H1.
   cbn [app] in H1. cbn [app]. rewrite H1; [|apply repeat_length|reflexivity]. clear H1.
   rewrite loop_cons. change (len [] =? 0) with true. cbv iota.
   replace (0 + len L =? 0) with false by lia.
   replace (0 + len L =? l - 1) with false by lia. cbv zeta.
-  replace (Z.to_nat (9 - l + (0 + len L) - (0 + len L))) with (length (zeros (S k)))
+  replace (Z.to_nat (9 - l + (0 + len L) - (0 + len L))) with (length (zeros (k)))
     by (rewrite repeat_length; subst k; unfold len in *; lia).
-  rewrite (zero_fill_mid (zeros (S k)) (map hexval L) (zeros 1))
+  rewrite (zero_fill_mid (zeros (k)) (map hexval L) (zeros 1))
     by (fold (vals L); rewrite len_vals; lia).
   cbn [obind]. rewrite repeat_length.
   rewrite loop_cons. change (len [] =? 0) with true. cbv iota.
@@ -447,7 +447,7 @@ Proof.
   2:{ subst F. rewrite nth_error_app2 by lia. rewrite Nat.sub_diag. reflexivity. }
   cbn [obind]. change (len [] =? 0) with true. cbn [negb].
   change (zeros 1) with [0].
-  rewrite app_assoc. rewrite (set_num_mid (map hexval L ++ zeros (S k)) 0 [] 7 0).
+  rewrite app_assoc. rewrite (set_num_mid (map hexval L ++ zeros (k)) 0 [] 7 0).
   2:{ rewrite len_app. fold (vals L). rewrite len_vals, len_zeros. subst k. unfold len in *. lia. }
   cbn [obind ipv6_loop]. rewrite <- app_assoc.
   do 3 f_equal. f_equal. change [0] with (zeros 1). rewrite <- zeros_split. f_equal. subst k. lia.
@@ -531,11 +531,11 @@ Proof.
       destruct (nonempty_prefix t2) as (R & tail2 & Ht2eq & HR & [->|(t3 & ->)]).
       * rewrite app_nil_r in Ht2eq. subst R.
         destruct (groups_or_bad t2 HR) as [HG|Hbad].
-        -- rewrite run_left in Hrun by assumption. injection Hrun as <- <-.
+        -- rewrite run_left in Hrun by (assumption || llia). injection Hrun as <- <-.
            split; [reflexivity|]. right; left. exists t2. auto.
         -- exfalso. refine (loop_bad _ _ _ _ _ _ _ _ Hrun).
            apply Exists_cons_tl, Exists_cons_tl. assumption.
-      * rewrite run_left_start in Hrun by assumption.
+      * rewrite run_left_start in Hrun by (assumption || llia).
         destruct t3 as [|f3 t3].
         -- destruct R as [|r0 R0].
            ++ cbn [app] in Ht2eq. subst t2. vm_compute in Hrun. injection Hrun as <- <-.
@@ -822,7 +822,7 @@ Proof.
         cbn [join]. rewrite app_nil_r. reflexivity. }
       replace ((len (L ++ [[]; []]) <? 3) || (8 <? len (L ++ [[]; []]))) with false
         by (rewrite len_app; pose proof (len_pos_nonnil L HLne); llia).
-      rewrite run_right by assumption. cbn [obind negb]. rewrite andb_false_r.
+      rewrite run_right by (assumption || lia). cbn [obind negb]. rewrite andb_false_r.
       cbn [map length] in Hg. rewrite app_nil_r, Nat.sub_0_r in Hg.
       apply gcheck_len8; [|exact Hg].
       unfold vals. rewrite app_length, map_length, repeat_length. lia.
